@@ -15,27 +15,37 @@ META = {
     "engine_kind": "self-checking MPI C program run under the real smpirun/SMPI, one run per (collective, algorithm, np, placement)",
     "level": "exploration",
     "technique": "in-program reference from the MPI definitions, byte-exact image comparison of every buffer (guards, holes of "
-                 "derived types and send buffers included) on every rank; crashes attributed by isolating single cases; every "
-                 "failure classified against a table of root causes (predicate over np/placement/count/datatype/op/mode)",
-    "level_text": "Every (collective, algorithm) pair listed by `smpirun -help-coll`, the four single-implementation collectives "
-                  "(gatherv, scatterv, scan, alltoallw) and the sixteen non-blocking collectives are run on communicators of 1..17 "
-                  "ranks under several rank placements (thorough: 39 configurations per algorithm, quick: 2 of them drawn by the "
-                  "seed). Inside a run the harness loops over roots, counts {0,1,2,np-1,np,np+1, two large non-multiples of np}, "
-                  "datatypes {int, double, vector with a hole, 2int/double_int}, operators {SUM,PROD,MAX,MIN,BXOR,MAXLOC,MINLOC,"
-                  "user commutative}, MPI_IN_PLACE, NULL root-only arguments, late ranks, back-to-back calls without barrier, and "
-                  "compares whole buffer images (64-byte guards around them) with the image the MPI definition gives.",
+                 "derived types, gaps between blocks and send buffers included) on every rank; crashes attributed by isolating "
+                 "single cases; every failure classified against a table of root causes (predicate over np/placement/count/"
+                 "datatype/op/mode/root), anything outside the table is a violation",
+    "level_text": "Every (collective, algorithm) pair listed by `smpirun -help-coll` (186), the four single-implementation "
+                  "collectives (gatherv, scatterv, scan, alltoallw) and the sixteen non-blocking collectives are run on "
+                  "communicators of 1..17 ranks under several rank placements: 39 (size, placement) configurations per algorithm "
+                  "in the thorough tier (every size 1..17 with one rank per host; blocks of 2 and 4, cyclic over 2 and 3 hosts, "
+                  "reversed communicator on subsets), 2 of them per algorithm and seed in the quick tier (one power-of-two size, "
+                  "one other, sizes <= 8) plus the minimal witness of every listed defect. Inside a run the harness loops over "
+                  "roots, counts {0,1,2,np-1,np,np+1, two large non-multiples of np (+5 more in thorough)}, datatypes {int, double, "
+                  "vector with a hole, 2int/double_int}, operators {SUM,PROD,MAX,MIN,BXOR,MAXLOC,MINLOC, user commutative}, "
+                  "MPI_IN_PLACE, NULL root-only arguments, uniform/varying/sparse count vectors with packed or gapped reversed "
+                  "displacements, late ranks, back-to-back calls without barrier, and compares whole buffer images (64-byte "
+                  "guards around them, send and receive buffers pre-filled with different bytes) with the image the MPI "
+                  "definition gives; MPI_Barrier/Ibarrier are judged on the simulated clock (nobody leaves before the last entered).",
     "level_note": "Hooks flavour only (SMPI's dlopen privatisation under ASan reports inside the sanitizer's sigaltstack "
                   "interceptor). Commutative operators only (as in the statement); non-commutative ones, MPI_Exscan, "
                   "inter-communicators and persistent collectives are not driven. An abort whose message states a precondition "
                   "of the algorithm that is indeed unmet (e.g. 'can't be used with non power of two number of processes') is "
-                  "counted as a refusal, not as a violation. A run stopped by the wall-clock watchdog is inconclusive. A run in "
-                  "which every rank compared every buffer and SimGrid then reports communications that nobody completed is "
-                  "recorded (units_leaving_communications_behind) but is not a violation of this property.",
+                  "counted as a refusal, not as a violation (gen/colls.py REFUSALS). A run stopped by the wall-clock watchdog, or "
+                  "that could not load libsimgrid (concurrent rebuild), is inconclusive. A run in which every rank compared every "
+                  "buffer and SimGrid then reports communications that nobody completed is recorded "
+                  "(units_leaving_communications_behind) but is not a violation of this property. The predicates of the rows "
+                  "of selector algorithms (ompi, mpich, mvapich2, impi, automatic) are those of the algorithms they delegate to, "
+                  "not narrowed to the size ranges of their decision tables.",
     "rule": "case = one collective call (collective, mode, root, count pattern, count, datatype, operator, data seed, late rank); "
             "non-trivial = distinct (collective, algorithm, np-class>1, placement-class, count-class other than 0, datatype-class, "
             "mode) whose cases were compared on every rank of a run that reached its end",
     "assumptions": ["only the listed count/datatype/operator values are driven; the quick tier visits 2 of the 39 (size, placement) "
-                    "configurations of each algorithm per seed (sizes <= 8) with a stratified sample of 96 calls per collective",
+                    "configurations of each algorithm per seed (sizes <= 8) with a stratified sample of 96 calls per collective "
+                    "(thorough: all 39, at most 600 calls per collective)",
                     "the simulated platform is one homogeneous cluster; placements: one rank per host, blocks of 2 or 4 ranks per "
                     "host, cyclic over 2 or 3 hosts, and a communicator with reversed rank order",
                     "cases in the class of a listed root cause (gen/colls_findings.py) are run apart from the others; of the "
